@@ -164,6 +164,10 @@ def run(prog, rep):
     from rules import keycmp, stream_window
     stream_window.check(prog, rep, 'R3.6', floor=9)
     keycmp.check(prog, rep)
+    rep.rule('R3.9', 'CSV readers, ReadValue(key): executed over a header row holding every prefix relation to the key, for every cursor position - the '
+                     'column read is the one whose header equals the key, an absent key is reported as not loaded', floor=2)
+    from rules import csvkey
+    csvkey.check(prog, rep, 'R3.9')
 
     # ---------------------------------------------------------------- R3.8 scopes with an item cursor consume what was left unread
     rep.rule('R3.8', 'MsgPack read scopes with an item cursor (array: 1 value per item, object: key + value per item): the destructor runs a loop '
